@@ -9,6 +9,7 @@
  */
 #define _GNU_SOURCE
 #include "wrap.h"
+#include <malloc.h>
 #include <dirent.h>
 #include <errno.h>
 #include <fcntl.h>
@@ -475,6 +476,9 @@ static int alloc_gate(void) {
   }
   return 0;
 }
+/* Memory that the C library hands out without a promise about its content (malloc, the grown part of realloc) is
+   filled with a non-zero pattern: a run must not depend on such memory happening to be zero. */
+#define POISON 0xA5
 void *__wrap_malloc(size_t n) {
   if (alloc_gate()) {
     return NULL;
@@ -482,6 +486,7 @@ void *__wrap_malloc(size_t n) {
   void *p = __real_malloc(n);
   if (p) {
     W.live_blocks++;
+    memset(p, POISON, malloc_usable_size(p));
   }
   return p;
 }
@@ -499,9 +504,13 @@ void *__wrap_realloc(void *q, size_t n) {
   if (alloc_gate()) {
     return NULL;
   }
+  size_t old = q ? malloc_usable_size(q) : 0;
   void *p = __real_realloc(q, n);
   if (p && !q) {
     W.live_blocks++;
+  }
+  if (p && malloc_usable_size(p) > old) {
+    memset((char *)p + old, POISON, malloc_usable_size(p) - old);
   }
   return p;
 }
